@@ -1,4 +1,4 @@
-import MpgsModel.Lemmas.AuthVerify
+import MpgsModel.Lemmas.AuthDamage
 /-!
 # C19 — Password hashing: the right password verifies, every other one does not
 
@@ -165,18 +165,103 @@ theorem C19_zero_length_digest_refused (kdf : Kdf) (sha : Bytes → Bytes) (pw s
 hash that ends before its third colon (defect C19-1) — is refused with `ValueError`. -/
 theorem C19_field_count (kdf : Kdf) (sha : Bytes → Bytes) (pw : Bytes) (hs : PyStr) (enc : Bytes)
     (henc : encodeUtf8 hs = .ok enc) (hn : (splitOn colon enc).length ≠ 4) :
-    verifyPassword kdf sha (.bytes pw) (.str hs) = .error .valueError := by
-  unfold verifyPassword verifyPrepare
-  simp only [henc]
-  split
-  · rename_i heq
-    split at heq
-    · rename_i hsp; rw [hsp] at hn; simp at hn
-    · cases heq; rfl
-  · rename_i heq
-    split at heq
-    · rename_i hsp; rw [hsp] at hn; simp at hn
-    · cases heq
+    verifyPassword kdf sha (.bytes pw) (.str hs) = .error .valueError :=
+  verify_field_count kdf sha pw hs enc henc hn
+
+/-- **field removal**: a hash string assembled from any number of colon-free fields other than
+four (one, two, three, five, … fields — e.g. a valid hash with one of its fields removed or an
+extra one added) is refused with `ValueError`, whatever the fields contain. -/
+theorem C19_field_removal (kdf : Kdf) (sha : Bytes → Bytes) (pw : Bytes) (hs : PyStr) (fs : List Bytes)
+    (hne : fs ≠ []) (hf : ∀ f ∈ fs, ∀ c ∈ f, c ≠ colon) (h4 : fs.length ≠ 4)
+    (henc : encodeUtf8 hs = .ok (joinSep colon fs)) :
+    verifyPassword kdf sha (.bytes pw) (.str hs) = .error .valueError :=
+  verify_field_count kdf sha pw hs _ henc (by rw [splitOn_joinSep colon fs hne hf]; exact h4)
+
+/-- **truncation at every position**: every proper prefix `h[:n]`, `n < len(h)`, of a hash made by
+`hash_password` makes `verify_password` raise `ValueError` or its subclass `binascii.Error` — for
+every password (the right one included), every 16-byte salt, every KDF that returns the 24 bytes it
+is asked for.  It never returns, neither `True` nor `False`. -/
+theorem C19_truncated (kdf : Kdf) (sha : Bytes → Bytes) (salt pw q : Bytes) (h : PyStr) (n : Nat)
+    (hs : salt.length = SALT_LENGTH)
+    (hk : (kdf defaultN defaultR defaultP DIGEST_LENGTH salt (sha pw)).length = DIGEST_LENGTH)
+    (hh : hashPassword kdf sha salt (.bytes pw) = .ok h) (hn : n < h.length) :
+    verifyPassword kdf sha (.bytes q) (.str (h.take n)) = .error .valueError ∨
+    verifyPassword kdf sha (.bytes q) (.str (h.take n)) = .error .binasciiError :=
+  verify_truncated kdf sha salt pw q h n hs hk hh hn
+
+/-- **every well-formed record, any parameters** (the documented upgrade path: hashes made with
+other scrypt parameters remain verifiable): for a canonical string
+`scrypt:1:<b64 params>:<b64 salt+digest>` whose parameter block packs, whose parameters the scrypt
+constructor accepts, with `length ≥ 1`, `|salt| = salt_length`, `|digest| = length`,
+`verify_password` returns exactly whether the digest derived from the password under the embedded
+salt and parameters equals the embedded digest — it never raises. -/
+theorem C19_verify_record (kdf : Kdf) (sha : Bytes → Bytes) (pw salt digest params : Bytes) (P : Params)
+    (hs : PyStr) (hp : packParams P = .ok params) (hinit : scryptInit P.N P.r P.p = .ok ())
+    (hl1 : 1 ≤ P.len) (hsl : salt.length = P.saltLen) (hdl : digest.length = P.len)
+    (henc : encodeUtf8 hs = .ok (kScrypt ++ colon :: (kOne ++ colon :: (b64encode params ++ colon ::
+      b64encode (salt ++ digest))))) :
+    verifyPassword kdf sha (.bytes pw) (.str hs) =
+      .ok (decide (kdf P.N P.r P.p P.len salt (sha pw) = digest)) := by
+  have hq := verify_record sha pw salt digest params P hs hp hinit hl1 hsl hdl henc
+  by_cases hc : kdf P.N P.r P.p P.len salt (sha pw) = digest
+  · simp only [hc, decide_true]
+    exact (verifyPassword_true_iff _ _ _ _).2 ⟨_, hq, hc⟩
+  · simp only [hc, decide_false]
+    exact (verifyPassword_false_iff _ _ _ _).2 ⟨_, hq, hc⟩
+
+/-- **base64 damage by an invalid character**: take any four-field `scrypt:1:…` string whose
+parameter field or data field is a base64 encoding (of anything — in particular every output of
+`hash_password`), and replace **any one** of its base64 characters (not the `=` padding) by a byte
+that is not a base64 character (and not `=` / `:`).  `verify_password` raises `binascii.Error`
+(a `ValueError`), for every password: the damaged field no longer decodes, at whichever position
+the damage is. -/
+theorem C19_b64_invalid_char (kdf : Kdf) (sha : Bytes → Bytes) (pw : Bytes) (hs : PyStr) (f2 f3 x : Bytes)
+    (i : Nat) (c : UInt8) (hc : sextet c = none) (hp : c ≠ padChar) (hcc : c ≠ colon)
+    (henc : encodeUtf8 hs = .ok (kScrypt ++ colon :: (kOne ++ colon :: (f2 ++ colon :: f3))))
+    (hi : i < (b64encode x).length) (hx : (b64encode x)[i] ≠ padChar)
+    (hd : (f2 = (b64encode x).set i c ∧ ∀ y ∈ f3, y ≠ colon) ∨
+          (f3 = (b64encode x).set i c ∧ ∃ params, f2 = b64encode params)) :
+    verifyPassword kdf sha (.bytes pw) (.str hs) = .error .binasciiError :=
+  verify_damaged kdf sha pw hs f2 f3 x i c hc hp hcc henc hi hx hd
+
+/-- the decoder's leniency, which is why some *spellings* of a well-formed record other than the
+canonical one are accepted too (`C19_malformed` says exactly which strings are): a byte that is
+neither `=` nor a base64 character is ignored wherever it stands in a base64 field. -/
+theorem C19_b64_ignores_non_alphabet (pre post : Bytes) (c : UInt8) (hp : c ≠ padChar)
+    (hc : sextet c = none) : b64decode (pre ++ c :: post) = b64decode (pre ++ post) :=
+  a2b_skip 0 0 0 pre post c hp hc
+
+/-! ## witnesses: the two defects, proved of the model of the code *before* the repairs -/
+
+/-- the string `scrypt:1` (a hash cut before its second colon) -/
+def truncatedWitness : PyStr := [115, 99, 114, 121, 112, 116, 58, 49]
+
+/-- the string `scrypt:1:QAAQARAA:MDEyMzQ1Njc4OWFiY2RlZg==`: default N, r, p, salt_length 16,
+**length 0**, data = the 16-byte salt `0123456789abcdef` alone -/
+def zeroLengthWitness : PyStr :=
+  [115, 99, 114, 121, 112, 116, 58, 49, 58, 81, 65, 65, 81, 65, 82, 65, 65, 58, 77, 68, 69, 121, 77, 122, 81,
+   49, 78, 106, 99, 52, 79, 87, 70, 105, 89, 50, 82, 108, 90, 103, 61, 61]
+
+/-- defect C19-1 (witness): before the repair a truncated hash raised `IndexError`, which is
+neither `ValueError` nor `TypeError` — for every password, KDF and pre-hash.  After the repair the
+same string gives `ValueError`. -/
+theorem C19_unrepaired_truncated_witness (kdf : Kdf) (sha : Bytes → Bytes) (pw : Bytes) :
+    verifyPasswordUnrepaired kdf sha (.bytes pw) (.str truncatedWitness) = .error .indexError ∧
+    Err.indexError.isValueOrType = false ∧
+    verifyPassword kdf sha (.bytes pw) (.str truncatedWitness) = .error .valueError :=
+  ⟨rfl, rfl, rfl⟩
+
+/-- defect C19-2 (witness): before the repair the zero-length-digest string verified `True` for
+**every** password, as soon as the KDF answers a request for 0 bytes with the empty string (scrypt
+does).  After the repair the same string gives `ValueError`. -/
+theorem C19_unrepaired_zero_length_witness (kdf : Kdf) (sha : Bytes → Bytes) (pw : Bytes)
+    (h0 : kdf 16384 16 1 0 [48, 49, 50, 51, 52, 53, 54, 55, 56, 57, 97, 98, 99, 100, 101, 102] (sha pw) = []) :
+    verifyPasswordUnrepaired kdf sha (.bytes pw) (.str zeroLengthWitness) = .ok true ∧
+    verifyPassword kdf sha (.bytes pw) (.str zeroLengthWitness) = .error .valueError := by
+  have hq : verifyPrepareUnrepaired sha (.bytes pw) (.str zeroLengthWitness) =
+      .ok ⟨16384, 16, 1, 0, [48, 49, 50, 51, 52, 53, 54, 55, 56, 57, 97, 98, 99, 100, 101, 102], sha pw, []⟩ := rfl
+  refine ⟨?_, rfl⟩
+  simp [verifyPasswordUnrepaired, hq, scryptVerify, h0]
 
 /-! ## non-vacuity: a toy KDF under which all hypotheses are met and the outcomes differ -/
 
@@ -193,6 +278,31 @@ example : (toyKdf defaultN defaultR defaultP DIGEST_LENGTH toySalt (id [112, 119
 example : toyKdf defaultN defaultR defaultP DIGEST_LENGTH toySalt (id [112, 120])
     ≠ toyKdf defaultN defaultR defaultP DIGEST_LENGTH toySalt (id [112, 119]) := by decide
 example : toySalt.length = toySalt'.length ∧ toySalt ≠ toySalt' := by decide
+/-- hypothesis `hk` of `C19_verify_own` cannot be dropped: with a KDF that returns fewer bytes than
+asked for, the repaired length check refuses the hash the code itself produced -/
+example : ∃ h, hashPassword (fun _ _ _ _ _ _ => [1, 2, 3]) id toySalt (.bytes [112, 119]) = .ok h ∧
+    verifyPassword (fun _ _ _ _ _ _ => [1, 2, 3]) id (.bytes [112, 119]) (.str h) = .error .valueError :=
+  ⟨_, rfl, by decide +kernel⟩
+/-- hypotheses of `C19_verify_record` with non-default parameters (N=4, r=2, p=3, 2-byte salt,
+3-byte digest) -/
+example : packParams ⟨4, 2, 3, 2, 3⟩ = .ok [0, 4, 2, 3, 2, 3] ∧ scryptInit 4 2 3 = .ok () := by
+  decide +kernel
+example : sextet 10 = none ∧ (10 : UInt8) ≠ padChar := by decide
+/-- hypotheses of `C19_b64_invalid_char`: `!` (33) at position 2 of the encoding of three bytes -/
+example : sextet 33 = none ∧ (33 : UInt8) ≠ padChar ∧ (33 : UInt8) ≠ colon ∧
+    (2 < (b64encode [1, 2, 3]).length) ∧ (b64encode [1, 2, 3])[2]! ≠ padChar := by decide +kernel
+/-- hypotheses of `C19_zero_length_digest_refused`: the witness string is such a hash -/
+example : packParams ⟨16384, 16, 1, ([48, 49, 50, 51, 52, 53, 54, 55, 56, 57, 97, 98, 99, 100, 101, 102] : Bytes).length, 0⟩
+      = .ok [64, 0, 16, 1, 16, 0] ∧
+    encodeUtf8 zeroLengthWitness = .ok (kScrypt ++ colon :: (kOne ++ colon :: (b64encode [64, 0, 16, 1, 16, 0] ++ colon ::
+      b64encode [48, 49, 50, 51, 52, 53, 54, 55, 56, 57, 97, 98, 99, 100, 101, 102]))) := by decide +kernel
+/-- hypotheses of `C19_field_count` / `C19_field_removal`: `scrypt:1` has two colon-free fields -/
+example : encodeUtf8 truncatedWitness = .ok (joinSep colon [kScrypt, kOne]) ∧
+    (splitOn colon (joinSep colon [kScrypt, kOne])).length ≠ 4 ∧
+    (∀ f ∈ [kScrypt, kOne], ∀ c ∈ f, c ≠ colon) := by decide +kernel
+/-- hypothesis `h0` of `C19_unrepaired_zero_length_witness`: a KDF asked for 0 bytes returns none -/
+example : toyKdf 16384 16 1 0 [48, 49, 50, 51, 52, 53, 54, 55, 56, 57, 97, 98, 99, 100, 101, 102] (id [1]) = [] := by
+  decide
 /-- the two sides of `C19_malformed`'s first part are all inhabited -/
 example : ∃ h, hashPassword toyKdf id toySalt (.bytes [112, 119]) = .ok h ∧
     verifyPassword toyKdf id (.bytes [112, 119]) (.str h) = .ok true ∧
